@@ -1,8 +1,233 @@
-(* C07 — statements only (work in progress) *)
-From Coq Require Import ZArith List Bool Arith Lia.
-From LW Require Import Base.Sx Base.Num Model.State Model.PostSel Model.Detector Proofs.StateP Proofs.DetectorP.
+(* C07 — sampling draws from the exact detected, heralded, post-selected
+   distribution.  Statements only; every proof is [exact <lemma>].
+
+   Reading guide.  [o : ops K] is the number type (the model is polymorphic;
+   the correspondence run executes it with exact rationals).  A distribution
+   [pd] is the association list state -> probability of the sampler.  [un] is
+   the stream numpy's Generator.random(N) yields inside Generator.choice, [ud]
+   / [us] the stream python's random.random() yields for the detector.  The
+   theorems hold for EVERY stream.  Convergence of empirical frequencies and
+   the quality of the PRNGs are outside proof (statistical TEST in the oracle
+   of harness/c07.py). *)
+From Coq Require Import ZArith List Bool Arith Lia QArith Reals.
+From LW Require Import Base.Sx Base.Num Model.State Model.PostSel Model.Detector
+                       Proofs.StateP Proofs.DetectorP.
 Import ListNotations.
 
-Theorem C07_threshold_length : forall s, length (threshold s) = length s.
-Proof. exact threshold_length. Qed.
-Print Assumptions C07_threshold_length.
+(* ---------------------------------------------------------------------- *)
+(* 1. every returned state satisfies the filters                           *)
+(* ---------------------------------------------------------------------- *)
+
+(* sample_N_inputs: at most N states; each one is what is left of a detected
+   state [full] = _get_output(s0) for a state s0 of the distribution, with the
+   heralds satisfied on [full], the herald modes removed, the post-selection
+   true and at least min_detection photons *)
+Theorem C07_samples_satisfy_filters_N_inputs :
+  forall (K : Type) (o : ops K) (d : @detector K) (h : hdict) (ps : postselect) (mind : Z)
+         (pd : @dist K) (un ud : list K) (l : list state) (rest : list K),
+    sample_N_inputs o d h ps mind pd un ud = Ok (l, rest) ->
+    (length l <= length un)%nat /\
+    Forall (fun hs =>
+      exists s0, In s0 (dkeys pd) /\
+      exists full us us',
+        get_output o d s0 us = Ok (full, us') /\
+        (herald_check h full = Ok true /\
+         strip_heralds h full = Ok hs /\
+         ps hs = Ok true /\
+         (mind <= st_n_photons hs)%Z)) l.
+Proof. exact (@sample_N_inputs_spec). Qed.
+Print Assumptions C07_samples_satisfy_filters_N_inputs.
+
+(* what "heralds satisfied and removed" says about the lists: the full state
+   carries the herald values on the herald modes, the returned state is the
+   full state with exactly those modes dropped *)
+Theorem C07_accepted_means :
+  forall (h : hdict) (ps : postselect) (mind : Z) (full hs : state),
+    NoDup (hkeys h) ->
+    (herald_check h full = Ok true /\ strip_heralds h full = Ok hs /\
+     ps hs = Ok true /\ (mind <= st_n_photons hs)%Z) ->
+    (forall m n, In (m, n) h -> nth m full 0%Z = n) /\
+    hs = keep_idx 0 (fun j => negb (existsb (Nat.eqb j) (hkeys h))) full /\
+    (length hs + length h = length full)%nat /\
+    ps hs = Ok true /\ (mind <= st_n_photons hs)%Z.
+Proof. exact accepted_shape. Qed.
+Print Assumptions C07_accepted_means.
+
+(* sample_N_outputs: EXACTLY N states, each the reduction of a (thresholded)
+   state of the distribution that passes all filters *)
+Theorem C07_samples_satisfy_filters_N_outputs :
+  forall (K : Type) (o : ops K) (d : @detector K) (h : hdict) (ps : postselect) (mind : Z)
+         (pd : @dist K) (un : list K) (l : list state),
+    sample_N_outputs o d h ps mind pd un = Ok l ->
+    length l = length un /\
+    Forall (fun hs =>
+      exists s0, In s0 (dkeys pd) /\
+        (herald_check h (if pcount d then s0 else map (fun i => Z.min i 1) s0) = Ok true /\
+         strip_heralds h (if pcount d then s0 else map (fun i => Z.min i 1) s0) = Ok hs /\
+         ps hs = Ok true /\
+         (mind <= st_n_photons hs)%Z)) l.
+Proof. exact (@sample_N_outputs_spec). Qed.
+Print Assumptions C07_samples_satisfy_filters_N_outputs.
+
+(* QuickSampler: exactly N states, all keys of its distribution; and when the
+   distribution is supported on the candidate outputs the class enumerates
+   (checked on every correspondence case), every key has the input's mode and
+   photon numbers (herald modes are never part of it), satisfies the
+   post-selection, and is collision-free for threshold detectors *)
+Theorem C07_samples_satisfy_filters_quick :
+  forall (K : Type) (o : ops K) (pd : @dist K) (un us : list K) (n_modes n_ph : nat) (pc : bool)
+         (ps : postselect) (outs : list state),
+    qs_out_states n_modes n_ph pc ps = Ok outs -> qs_supported pd outs = true ->
+    (forall l, qs_sample_N_outputs o pd un = Ok l ->
+               length l = length un /\ Forall (fun s => In s (dkeys pd)) l) /\
+    (forall s rest, qs_sample o pd us = Ok (s, rest) -> In s (dkeys pd)) /\
+    (forall s, In s (dkeys pd) ->
+       length s = n_modes /\ st_n_photons s = Z.of_nat n_ph /\ ps s = Ok true /\
+       Forall (fun x => 0 <= x)%Z s /\ (pc = false -> Forall (fun x => x <= 1)%Z s)).
+Proof.
+  exact (fun K o pd un us n_modes n_ph pc ps outs Ho Hs =>
+    conj (fun l => qs_sample_N_outputs_spec o pd un l)
+   (conj (fun s rest => qs_sample_spec o pd us s rest)
+         (fun s Hin => qs_out_states_spec n_modes n_ph pc ps outs Ho s
+                         (qs_supported_spec pd outs Hs s Hin)))).
+Qed.
+Print Assumptions C07_samples_satisfy_filters_quick.
+
+(* a PostSelection object accepts a state iff every rule's mode sum is one of its photon numbers *)
+Theorem C07_postselection_rules_mean :
+  forall (rs : list rule) (s : state),
+    rules_validate rs s = Ok true ->
+    Forall (fun r => exists t, sum_modes (r_modes r) s = Ok t /\ In t (r_nph r)) rs.
+Proof. exact rules_validate_true. Qed.
+Print Assumptions C07_postselection_rules_mean.
+
+(* ---------------------------------------------------------------------- *)
+(* 2. Sampler.sample() and heralds: REFUTED on the pinned tree (finding N7) *)
+(* ---------------------------------------------------------------------- *)
+(* a valid distribution, a stream in [0,1), a 1-photon herald on mode 0: the
+   returned state |0,0,2> violates the herald and still has the herald mode *)
+Theorem C07_sample_satisfies_heralds_refuted :
+  exists (d : @detector Q) (h : hdict) (pd : @dist Q) (us : list Q) (s : state) (rest : list Q),
+    h <> [] /\ valid_probs (dvals pd) /\ Forall (fun u => 0 <= u < 1)%Q us /\
+    sampler_sample Qo d pd us = Ok (s, rest) /\
+    herald_check h s = Ok false /\
+    length s = length (fst (hd ([], 0%Q) pd)).
+Proof. exact sample_heralds_refuted. Qed.
+Print Assumptions C07_sample_satisfies_heralds_refuted.
+
+(* for circuits without heralds sample() is right *)
+Theorem C07_sample_satisfies_heralds_partial :
+  forall (K : Type) (o : ops K) (d : @detector K) (h : hdict) (pd : @dist K) (us : list K)
+         (s : state) (rest : list K),
+    h = [] ->
+    sampler_sample o d pd us = Ok (s, rest) ->
+    (exists s0 us1, In s0 (dkeys pd) /\ get_output o d s0 us1 = Ok (s, rest)) /\
+    herald_check h s = Ok true /\ strip_heralds h s = Ok s.
+Proof. exact (@sample_heralds_partial). Qed.
+Print Assumptions C07_sample_satisfies_heralds_partial.
+
+(* ---------------------------------------------------------------------- *)
+(* 3. the exact law of Detector._get_output                                *)
+(* ---------------------------------------------------------------------- *)
+(* _get_output is a decision tree over the comparisons random() > efficiency
+   and random() < p_dark: running the tree on a stream is the transcribed code *)
+Theorem C07_get_output_is_its_tree :
+  forall (K : Type) (o : ops K) (d : @detector K) (s : state) (us : list K),
+    run_tree o (get_output_tree o d s) us = get_output o d s us.
+Proof. exact (@run_get_output_tree). Qed.
+Print Assumptions C07_get_output_is_its_tree.
+
+(* weighting every comparison as an independent Bernoulli event
+   (P(u > eta) = 1 - eta, P(u < p) = p) the tree's law IS the kernel:
+   every photon kept independently with probability eta (binomial thinning of
+   each mode), THEN at most one dark count per mode with probability p_dark,
+   THEN the cap at one for threshold detectors -- as an identity of finitely
+   supported measures over any commutative ring (all expectations agree). *)
+Theorem C07_get_output_law :
+  forall (K : Type) (o : ops K) (SR : StarRing o) (d : @detector K) (s : state) (f : state -> K),
+    det_valid (o:=o) d -> Forall (fun n => 0 <= n)%Z s ->
+    expect o (law o (get_output_tree o d s)) f = expect o (kernel o d s) f.
+Proof. exact (@get_output_law). Qed.
+Print Assumptions C07_get_output_law.
+
+(* in particular every event has the same probability *)
+Theorem C07_get_output_law_events :
+  forall (K : Type) (o : ops K) (SR : StarRing o) (d : @detector K) (s : state) (ev : state -> bool),
+    det_valid (o:=o) d -> Forall (fun n => 0 <= n)%Z s ->
+    prob (o:=o) (law o (get_output_tree o d s)) ev = prob (o:=o) (kernel o d s) ev.
+Proof. exact (@get_output_prob). Qed.
+Print Assumptions C07_get_output_law_events.
+
+(* the probability that one clock cycle of sample_N_inputs returns a given
+   outcome (in particular: is kept) is the mass of that outcome under
+   detect(distribution) followed by herald check / removal / post-selection /
+   min-detection *)
+Theorem C07_accepted_fraction_spec :
+  forall (K : Type) (o : ops K) (SR : StarRing o) (d : @detector K) (h : hdict) (ps : postselect)
+         (mind : Z) (pd : wdist state) (f : res (option state) -> K),
+    det_valid (o:=o) d -> Forall (fun sp => Forall (fun n => 0 <= n)%Z (fst sp)) pd ->
+    expect o (cycle_law (o:=o) d h ps mind pd) f = expect o (dmap (accept h ps mind) (detect o d pd)) f.
+Proof. exact (@accepted_fraction). Qed.
+Print Assumptions C07_accepted_fraction_spec.
+
+(* every detector the Detector setters accept is valid, over the reals *)
+Theorem C07_detector_valid_reals :
+  forall (eta pd : R) (pc : bool),
+    (0 <= eta <= 1)%R -> (0 <= pd <= 1)%R -> det_valid (o:=Ro) (mkDet eta pd pc).
+Proof. exact det_valid_R. Qed.
+Print Assumptions C07_detector_valid_reals.
+
+Example C07_get_output_law_nonvacuous :
+  det_valid (o:=Ro) (mkDet (1 / 2)%R (1 / 4)%R false) /\ Forall (fun n => 0 <= n)%Z [2; 0; 1]%Z.
+Proof. split; [exact det_valid_R_example|repeat constructor; discriminate]. Qed.
+
+(* ---------------------------------------------------------------------- *)
+(* 4. inverse-CDF sampling, over Q                                         *)
+(* ---------------------------------------------------------------------- *)
+(* numpy Generator.choice(p): for u in [0,1) an index is always found, and the
+   set of u sent to index j is exactly the interval
+   [cmass j / total, cmass (j+1) / total) *)
+Theorem C07_inverse_cdf_law :
+  forall (ps : list Q) (u : Q),
+    valid_probs ps -> (0 <= u < 1)%Q ->
+    let k := first_gt Qo (np_cdf Qo ps) u 0 in
+    (k < length ps)%nat /\
+    forall j, (j < length ps)%nat ->
+      (k = j <-> (cmass ps j / Qsum ps <= u /\ u < cmass ps (S j) / Qsum ps)%Q).
+Proof. exact inverse_cdf_choice. Qed.
+Print Assumptions C07_inverse_cdf_law.
+
+(* ... whose length is p_j / total *)
+Theorem C07_inverse_cdf_interval_length :
+  forall (ps : list Q) (k : nat),
+    (k < length ps)%nat -> (0 < Qsum ps)%Q ->
+    (cmass ps (S k) / Qsum ps - cmass ps k / Qsum ps == nth k ps 0 / Qsum ps)%Q.
+Proof. exact interval_length. Qed.
+Print Assumptions C07_inverse_cdf_interval_length.
+
+(* the `pval < cd` scan of Sampler.sample() over _convert_to_continuous picks
+   the key at the same index *)
+Theorem C07_inverse_cdf_law_sample :
+  forall (pd : @dist Q) (u : Q),
+    valid_probs (dvals pd) -> (0 <= u < 1)%Q ->
+    exists k, (k < length pd)%nat /\
+      scan_cd Qo (convert_to_continuous Qo pd) u None = nth_error (dkeys pd) k /\
+      forall j, (j < length pd)%nat ->
+        (k = j <-> (cmass (dvals pd) j / Qsum (dvals pd) <= u /\
+                    u < cmass (dvals pd) (S j) / Qsum (dvals pd))%Q).
+Proof. exact inverse_cdf_scan. Qed.
+Print Assumptions C07_inverse_cdf_law_sample.
+
+Example C07_inverse_cdf_nonvacuous :
+  valid_probs [1 # 2; 0; 1 # 4; 1 # 4]%Q /\
+  first_gt Qo (np_cdf Qo [1 # 2; 0; 1 # 4; 1 # 4]%Q) (1 # 2)%Q 0 = 2%nat.
+Proof. split; [split; [repeat constructor; discriminate|reflexivity]|reflexivity]. Qed.
+
+(* a run of the model in which all filters act: herald 1 photon on mode 0,
+   post-selection "mode 0 of the reduced state has >= 1 photon", min_detection 1 *)
+Example C07_filters_nonvacuous :
+  sample_N_inputs Qo (mkDet 1 0 true)%Q [(0%nat, 1%Z)] (psel_validate (PSFun (PModeGe 0 1))) 1
+     [([1; 1; 0]%Z, 1 # 2); ([0; 0; 2]%Z, 1 # 4); ([1; 0; 1]%Z, 1 # 4)]%Q
+     [1 # 10; 6 # 10; 9 # 10]%Q []
+  = Ok ([[1; 0]%Z], []).
+Proof. reflexivity. Qed.
